@@ -234,7 +234,7 @@ struct SmallSetEngine : EngineBase {
   E *make_hold(Val v) { MonScope m; hold = new E(v.key, v.pay); return hold; }
   void drop_hold() { MonScope m; delete hold; hold = nullptr; }
   template <class X> static void adopt(const X &) {}
-  template <int K> static void adopt(const Tracked<K> &t) { ledger_adopt(t); }
+  template <int K, int P> static void adopt(const Tracked<K, P> &t) { ledger_adopt(t); }
 
   template <class Set>
   typename Set::const_iterator nth(const Set &s, int i) { auto it = s.begin(); for (int k = 0; k < i; ++k) ++it; return it; }
